@@ -528,6 +528,7 @@ fn parse_case(line: &str) -> Option<Case> {
 /// (offset of the protocol opcode byte, offset of the payload, message counter, session id, opcode,
 /// protocol id) of an unsecured datagram
 struct Env {
+    exch: u16,
     opcode_at: usize,
     payload_at: usize,
     ctr: u32,
@@ -568,7 +569,8 @@ fn envelope(d: &[u8]) -> Option<Env> {
     if d.len() < q {
         return None;
     }
-    Some(Env { opcode_at: p + 1, payload_at: q, ctr, sess, opcode, proto })
+    let exch = u16::from_le_bytes([d[p + 2], d[p + 3]]);
+    Some(Env { exch, opcode_at: p + 1, payload_at: q, ctr, sess, opcode, proto })
 }
 
 #[derive(Clone, Debug)]
@@ -793,6 +795,11 @@ struct Mitm {
     history: Vec<WireLog>,
     /// last StatusReport handed to A: (general, code)
     last_status: Option<(u16, u16)>,
+    /// exchange id of this attempt (that of the first Sigma1 the initiator sends in it).  Unsecured
+    /// messages of OTHER exchanges - the CloseSession / retransmissions of an exchange a previous attempt
+    /// left behind when its futures were dropped - are not part of this handshake: delivered untouched,
+    /// not counted, not recorded.
+    exch: Option<u16>,
     /// Sigma3 as handed to B compared with Sigma3 as sent by A: none | same | alt | diff
     /// (alt = same encrypted3 element, other bytes: the known class sigma3_alt of Model/CaseSpec.v)
     s3: &'static str,
@@ -825,6 +832,7 @@ impl MNet {
                 wire: vec![],
                 history: vec![],
                 last_status: None,
+                exch: None,
                 s3: "none",
             },
         })))
@@ -841,6 +849,7 @@ impl MNet {
         m.copies.clear();
         m.wire = vec![];
         m.last_status = None;
+        m.exch = None;
         m.s3 = "none";
     }
 
@@ -881,6 +890,13 @@ impl MNet {
                 return;
             }
         };
+        if i.mitm.exch.is_none() && dir == 0 && env.opcode == 0x30 {
+            i.mitm.exch = Some(env.exch);
+        }
+        if i.mitm.exch != Some(env.exch) && std::env::var_os("C01_NO_EXCH_FILTER").is_none() {
+            Self::enqueue(i, src, dst, data.to_vec());
+            return;
+        }
         let m = &mut i.mitm;
         let k = match m.seen[dir as usize].iter().position(|c| *c == env.ctr) {
             Some(k) => k,
